@@ -1,6 +1,7 @@
 import AC.Drv.Proto
 import AC.Drv.C05
 import AC.GenX
+import AC.SemXText
 /-! driver handler for C06:
 `c06 <script hex> <ir|err> <names before allocation|-> <template> <impl output hex|err|panic|-> <chain> <ops> <reload>` -/
 namespace AC.Drv.K06
@@ -94,6 +95,12 @@ def handleC06 (f : List String) : Res :=
       let r := cmp "output" mOut outH r
       let r := match m with
         | .ok d => cmp "ops" (showPairs d.ops) opsS (cmp "chain" (showNats d.chain) chainS r)
+        | .error _ => r
+      -- the chain the generator evaluated must be the SCRIPT's chain: computed here from the script text
+      -- by the loader model of C03 (parse, translate, compile, evaluate — proved to refine the direct
+      -- semantics), independently of the implementation's translator
+      let r := match P.SemX.loadText script.toList with
+        | .ok st => specIf "evaluated-chain-is-the-scripts-chain" (st.chain == chain) r
         | .error _ => r
       -- spec on the implementation's output
       let nInst := ir.length
